@@ -1289,6 +1289,10 @@ def rule_lossy_independent_shortcuts(col, facts):
                     if is_const_fp:
                         n += 1
                         dep = [show(c) for _d, c, p in path_conditions(f, i) if strip_casts(c)[:2] == ("arg", lossy_arg)]
+                        # `lossy || cond`: the block is entered through several edges, one of them decided by lossy alone
+                        for alt in reach_alternatives(f, i):
+                            if alt and strip_casts(alt[-1][1])[:2] == ("arg", lossy_arg):
+                                dep.append("%s (last test on one way in)" % show(alt[-1][1]))
                         col.check(R, "%s:shortcut#%d" % (last_seg(name), n), not dep,
                                   "a zero/infinity short-circuit return is only taken when lossy is %s: lossy parsing would change zero / infinity results" % dep, f.loc(st[3]))
         col.floor(R, "zero/inf short-circuits in %s" % last_seg(name), n, 1)
@@ -1926,3 +1930,97 @@ def rule_grisu_margins(col, facts):
     ops = {w: o for w, o, _ in adj}
     col.check(R, "grisu:margins", ops.get("upper") == "Sub" and ops.get("lower") == "Add",
               "the one-unit safety margins are %s (expected upper.mant - 1 and lower.mant + 1)" % sorted(ops.items()), f.loc())
+
+
+def rule_raw_digit_scans(col, facts):
+    """GRD-contiguous (slow path): with digit separators enabled the bytes of a component are not all digits;
+    every raw view of the remaining bytes (`as_slice()`) inside the slow path's digit scans must lie on a
+    path where the iterator was found contiguous.  A raw scan of the truncated tail counts a separator as a
+    non-zero digit and rounds an exact tie up."""
+    R = "GRD-contiguous"
+    n = 0
+    for f in facts.all_fns():
+        if f.crate != "lexical_parse_float" or "::slow::" not in f.short and not f.short.endswith("binary::parse_u64_digits"):
+            continue
+        for bb, c, a, d, t in f.calls():
+            if last_seg(callee_name(c)) not in ("as_slice",):
+                continue
+            n += 1
+            ok = any(strip_casts(e)[0] == "call" and last_seg(strip_casts(e)[1]) == "is_contiguous" and p is True for _d, e, p in path_conditions(f, bb)) or \
+                any(strip_casts(e)[0] == "kc" and last_seg(strip_casts(e)[1]) == "IS_CONTIGUOUS" and p is True for _d, e, p in path_conditions(f, bb))
+            col.check(R, "%s:as_slice#%d" % (f.short.replace(PF, ""), n), ok,
+                      "the remaining bytes are scanned raw (as_slice()) without the iterator having been found contiguous: digit separators in the tail are taken for non-zero digits", f.loc(f.blocks[bb]["ts"]))
+    col.note("GRD-contiguous: %d raw scans in the slow path (0 is the expected number today)" % n)
+
+
+def rule_power_index_guards(col, facts):
+    """GRD-index (Bellerophon): the power tables are indexed with `exponent % step` and `exponent / step` of the
+    *biased* exponent; Rust's `%` and `/` truncate towards zero, so the indices are in range only if that
+    exponent itself was found non-negative (not merely its quotient) and the quotient below the table length."""
+    if not (facts.config.startswith("compact") or "radix" in facts.config):
+        return
+    R = "GRD-index"
+    f = facts.fn(PF + "bellerophon::bellerophon")
+    n = 0
+    for bb, c, a, d, t in f.calls():
+        cn = last_seg(callee_name(c))
+        if cn not in ("get_small_int", "get_small", "get_large"):
+            continue
+        idx = strip_casts(op_expr(f, a[1]))
+        if idx[0] != "bin" or idx[1] not in ("Rem", "Div"):
+            col.bad(R, "bellerophon:%s:index-shape" % cn, "index `%s` is not exponent %%/ step" % show(idx), f.loc(f.blocks[bb]["ts"]))
+            continue
+        x = strip_casts(idx[2])
+        n += 1
+        nonneg = False
+        for _d, e, p in path_conditions(f, bb):
+            e = strip_casts(e)
+            if e[0] == "bin" and strip_casts(e[2]) == x and strip_casts(e[3]) == ("k", 0) and ((e[1] == "Lt" and p is False) or (e[1] == "Ge" and p is True)):
+                nonneg = True
+        col.check(R, "bellerophon:%s:dividend-nonnegative" % cn, nonneg,
+                  "`%s` indexes a power table but the dividend itself was not found >= 0 on the way (a test on the quotient lets -step < exponent < 0 through and the remainder is negative: index out of bounds)" % show(idx)[:120], f.loc(f.blocks[bb]["ts"]))
+    col.floor(R, "power-table index computations", n, 3)
+
+
+def rule_overflow_check_unconditional(col, facts):
+    """MPT-overflow (shared::round): after rounding a normal float the exponent is compared with INFINITE_POWER
+    whether or not the mantissa carried: the power-of-two back-ends rely on it for inputs that overflow
+    without a carry.  The comparison must be reachable on a path where the carry test was false."""
+    from rules.core import enum_paths
+    R = "MPT-overflow"
+    f = facts.fn(PF + "shared::round")
+    inf_blocks = set()
+    for i, b in enumerate(f.blocks):
+        if f.live(i) and b["t"]["k"] == "switch":
+            e = op_expr(f, b["t"]["d"])
+            if any(last_seg(k[1]) == "INFINITE_POWER" for k in expr_consts(e)):
+                inf_blocks.add(i)
+    col.check(R, "round:overflow-test", len(inf_blocks) >= 1, "no comparison with INFINITE_POWER in shared::round", f.loc())
+    if not inf_blocks:
+        return
+    free = 0
+    for t, atoms in enum_paths(f, 0, inf_blocks):
+        carry = [p for e, p in atoms if any(last_seg(k[1]) == "CARRY_MASK" for k in expr_consts(e)) or any(last_seg(c[1]) == "as_u64" and any(last_seg(k[1]) == "CARRY_MASK" for k in expr_consts(c)) for c in expr_calls(e))]
+        if carry and carry[-1] is False:
+            free += 1
+    col.check(R, "round:overflow-test-without-carry", free >= 1,
+              "the INFINITE_POWER comparison is only reachable after a mantissa carry: an input that overflows without carrying (power-of-two radix, `1.8p1024`) keeps an exponent field of all ones with a non-zero mantissa and becomes NaN / garbage instead of infinity", f.loc())
+
+
+def rule_int_pow_exact(col, facts):
+    """CFG-exact (compact): RawFloat::int_pow_fast_path is also what Bigint::pow uses for the small factor
+    radix^k; its compact variant computes the power instead of reading a table and must do so in integer
+    arithmetic - a float `powd` is exact only up to 2^53 (5^23 .. 5^26 are not)."""
+    if not facts.config.startswith("compact"):
+        return
+    R = "CFG-exact"
+    n = 0
+    for f in facts.all_fns():
+        if f.crate != "lexical_parse_float" or not f.short.endswith("::int_pow_fast_path"):
+            continue
+        n += 1
+        calls = [last_seg(callee_name(c)) for _b, c, _a, _d, _t in f.calls()]
+        floaty = [c for c in calls if c in ("powd", "powf", "powi", "pow_fast_path") or c.startswith("pow") and c not in ("pow", "wrapping_pow", "checked_pow", "saturating_pow")]
+        col.check(R, f.short.replace(PF, "") + ":integer-power", not floaty and any(c in ("wrapping_pow", "pow", "checked_pow") for c in calls),
+                  "int_pow_fast_path computes radix^k with %s: beyond 2^53 a floating-point power is not the exact integer the big-integer slow path multiplies with" % (floaty or calls), f.loc())
+    col.floor(R, "int_pow_fast_path implementations (compact)", n, 1)
